@@ -17,6 +17,9 @@ OBLIGATIONS = [
     chx("unsign", "C34_h", "h_unsign", timeout={"quick": 60, "thorough": 60},
         desc="unsign_from_foolscap: verify_signature called exactly once with the claimed key's bytes, the decoded signature and the exact message; "
              "(announcement, key) returned iff it returned normally, attributed to that key; else BadSignature and nothing returned"),
+    chx("unsign_twice", "C34_h", "h_unsign_twice", timeout={"quick": 60, "thorough": 60},
+        desc="two unsign_from_foolscap calls in one process (same key; same or different message and signature): each call's outcome depends only on "
+             "its own (message, key, signature) under the ideal signature scheme -- nothing cached from the first call vouches for the second"),
     chx("batch_bad_signature", "C34_h", "h_batch_bad_signature", timeout={"quick": 120, "thorough": 600},
         desc="IntroducerClient.got_announcements with 3 well-formed announcements from 3 keys, each signature valid or not: exactly the valid ones are stored under "
              "their key and delivered, whatever the positions of the forged ones; no exception"),
